@@ -578,15 +578,41 @@ def run_py_scenarios(ctx, scen, source):
     import subprocess
     pkgdir = build_pyext()
     outp = scen.replace(".ndjson", "") + ".py.out"
-    p = subprocess.run(["python3", os.path.join(vcheck.VERIF, "py", "driver.py"), scen, outp], env=dict(os.environ, PYTHONPATH=pkgdir),
-                       stdout=subprocess.DEVNULL, stderr=subprocess.PIPE, timeout=1800)
-    if p.returncode != 0:
-        # the interpreter itself died: attribute it to the scenario in progress
-        prog = outp + ".progress"
-        cur = open(prog).read() if os.path.exists(prog) else "?"
-        ctx.verdicts.add({"kind": "crash", "why": "the Python interpreter exited with status %s while running a scenario: %s" % (p.returncode, p.stderr.decode()[-300:]),
-                          "sc": ["C19"], "entry": "python", "rule": cur[:500], "data": "", "expected": "a return value or ValueError", "actual": "interpreter crash", "profile": "python-ext-release"}, source)
-        return None
+    prog = outp + ".progress"
+    for f in (outp, prog):
+        if os.path.exists(f):
+            os.remove(f)
+    # a hang inside the native call cannot be interrupted from Python: the driver runs as a child whose progress
+    # file is watched; a stalled scenario is recorded as a hang and the driver is restarted after it
+    import time as _t
+    start, hangs, partial = 0, 0, []
+    while True:
+        p = subprocess.Popen(["python3", os.path.join(vcheck.VERIF, "py", "driver.py"), scen, outp, str(start)], env=dict(os.environ, PYTHONPATH=pkgdir),
+                             stdout=subprocess.DEVNULL, stderr=subprocess.PIPE)
+        last_change, last_sig = _t.time(), None
+        stalled = False
+        while p.poll() is None:
+            _t.sleep(0.5)
+            sig = os.path.getmtime(prog) if os.path.exists(prog) else None
+            if sig != last_sig:
+                last_sig, last_change = sig, _t.time()
+            elif _t.time() - last_change > 30:
+                p.kill(); p.wait(); stalled = True
+                break
+        if not stalled and p.returncode == 0:
+            break
+        cur = open(prog).read() if os.path.exists(prog) else "0\n?"
+        idx = int(cur.split("\n", 1)[0]) if cur.split("\n", 1)[0].isdigit() else start
+        hangs += 1
+        ctx.verdicts.add({"kind": "hang" if stalled else "crash",
+                          "why": ("no return from the extension within 30 s" if stalled else "the Python interpreter exited with status %s: %s" % (p.returncode, p.stderr.read().decode()[-300:])),
+                          "sc": ["C19", "C01"], "entry": "python", "rule": cur.split("\n", 1)[-1][:600], "data": "", "expected": "a return value or ValueError", "actual": "hang" if stalled else "interpreter crash",
+                          "profile": "python-ext-release"}, source)
+        start = idx + 1
+        if hangs >= 5:
+            log("  (python driver: stopped after %d hangs/crashes)" % hangs)
+            open(outp, "a").write(json.dumps({"summary": True, "cases": start, "matched": 0, "mismatched": 0, "crashed": hangs, "hung": hangs, "samples": [], "profile": "python-ext-release"}) + "\n")
+            break
     summary, mism = None, []
     for line in open(outp):
         r = json.loads(line)
